@@ -22,7 +22,8 @@ func init() {
 			"NOT decided: data races inside third-party code, position-base effects of the shared FileSet on printing, concurrent Apply calls beyond R1 (absence of writes to shared state)." +
 			" R5 also: runner fields written while files are processed are never read there." +
 			" R1 also: the shared token.FileSet only grows — no RemoveFile / Read anywhere in the module; writes through sync/atomic, sync.Once and sync.Map count as writes. R6 bytes kept for a file are not a window into a re-used buffer (C03-R12)." +
-			" R5 also: the header of the per-file loop carries no value besides the position and the error list.",
+			" R5 also: the header of the per-file loop carries no value besides the position and the error list." +
+			" R7 slice-typed fields of engine structs loaded by the command and the library are never the destination of an element store, append, copy or in-place sort (forward value flow); R8 = C03-R16.",
 		Trusted:     append([]string{"token.FileSet is internally locked and append-only", "the go-intervals coroutine is deterministic"}, commonTrusted...),
 		Assumptions: commonAssumptions,
 	})
@@ -40,6 +41,8 @@ func runC14(r *an.Run) {
 		crossFileState(r, m, "R5-cross-file-state")
 	}
 	noTransientBufferRetained(r, "R6-kept-bytes-are-not-a-window-into-a-reused-buffer")
+	sharedListsAreOnlyRead(r, "R7-lists-of-the-compiled-patch-are-only-read")
+	treeIsParsedFromTheBytesGiven(r, "R8-the-tree-rewritten-is-parsed-from-the-bytes-given")
 }
 
 func c14FreshState(r *an.Run) {
